@@ -6,19 +6,34 @@ from checks.writer_common import export_writer, replay_writer
 def main(tier):
     v = Verdict("C09", tier)
     ev = dict(tlc=[])
-    cfg = f"Writer.c09.{tier}.cfg"
-    res, edges, runs = export_writer(cfg, "c09-" + cfg)
-    ev["tlc"].append(dict(cfg=cfg, generated=res.generated, distinct=res.distinct, depth=res.depth, violation=res.violation))
-    if res.violation:
-        tlc_counterexample_violation(v, res, "MCWriter", cfg)
-    else:
+    # thorough: two graphs instead of one of 4.7 million edges (20 GB of Python objects): every name class to depth 6,
+    # and depth 7 without the 65 536-byte name
+    cfgs = ["Writer.c09.quick.cfg"] if tier == "quick" else ["Writer.c09.thorough.cfg", "Writer.c09.deep.cfg"]
+    all_edges = []
+    tot_states = tot_trans = 0
+    for cfg in cfgs:
+        res, edges, runs = export_writer(cfg, "c09-" + cfg)
+        ev["tlc"].append(dict(cfg=cfg, generated=res.generated, distinct=res.distinct, depth=res.depth, violation=res.violation))
+        tot_states += res.distinct
+        tot_trans += res.generated
+        if res.violation:
+            tlc_counterexample_violation(v, res, "MCWriter", cfg)
+            continue
         variants = [dict(stack="raw", seed=seed() + 31), dict(stack="enc", seed=seed() + 32),
                     dict(stack="comp", seed=seed() + 33, profile="prod"), dict(stack="comp+enc", seed=seed() + 34, profile="prod")]
         replay_writer(v, "C09", runs, variants, "s20", "c09", ev)
-    nrefused = sum(1 for e in (edges or []) if not e["fx"])
+        all_edges.append((len(edges), sum(1 for e in edges if not e["fx"])))
+        del edges, runs
+
+    class _R:
+        distinct, generated = tot_states, tot_trans
+    res = _R
+    edges = None
+    nedges = sum(a for a, _ in all_edges)
+    nrefused = sum(b for _, b in all_edges)
     cov = dict(states=res.distinct, transitions=res.generated,
                traces_validated_against_impl=ev.get("runs", 0), samples=ev.get("samples", [])[:3] or ["none"],
-               edges_exported=len(edges or []), refused_edges_in_model=nrefused,
+               edges_exported=nedges, refused_edges_in_model=nrefused,
                refused_calls_checked_on_code=ev.get("refused_calls", 0), steps_replayed=ev.get("steps", 0),
                hidden_state_steps_compared=ev.get("hidden_compared", 0), archives_read_back=ev.get("readbacks", 0),
                drift=ev.get("drifts", 0), drift_samples=ev.get("drift_samples", [])[:3], tlc_runs=ev["tlc"],
